@@ -122,7 +122,7 @@ class Run:
                 if any(dg["message"].startswith(x) for x in vu.DEFINITE) or "rlimit" in dg["message"]:
                     continue
                 for (bkey, lo, hi) in g.blocks:
-                    if any(ln and lo <= ln <= hi for ln in dg["lines"]):
+                    if dg["line"] and lo <= dg["line"] <= hi:      # primary span only
                         bad[bkey] = "verus cannot read this block any more: " + dg["message"][:200]
             if not bad or all(k in exclude for k in bad):
                 break
